@@ -113,6 +113,8 @@ type HarnessCfg struct {
 	MaxSteps  int
 	MaxPaths  int
 	FeasTimeoutMs int
+	IncrTimeoutMs int
+	Concretize    bool
 }
 
 func NewMachine(prog *ssa.Program, sh *Shared, sol *Solver, cfg *HarnessCfg, harness string) *Machine {
@@ -139,9 +141,9 @@ func NewMachine(prog *ssa.Program, sh *Shared, sol *Solver, cfg *HarnessCfg, har
 func (m *Machine) RunPath(fn *ssa.Function, prefix []Decision, inits []*ssa.Function) (res *PathResult) {
 	m.decisions = append([]Decision(nil), prefix...)
 	res = m.res
-	m.sol.Push()
+	m.sol.BeginPath()
 	defer func() {
-		m.sol.Pop()
+		m.sol.EndPath()
 		res.Forks = m.forks
 		res.Fns = m.fns
 		res.NMerged = m.nMerged
@@ -226,6 +228,7 @@ func (m *Machine) checkModel(extra *Term) (SatResult, Model) {
 	}
 	m.sol.SetTimeout(m.cfg.FeasTimeoutMs)
 	r, model, errs := m.sol.Check(m.em.take(), []string{n}, true, vars)
+
 	if errs != "" {
 		m.res.Incon = append(m.res.Incon, "solver error: "+errs)
 	}
@@ -280,11 +283,14 @@ func (m *Machine) check(extra *Term, wantModel bool) (SatResult, map[string]stri
 	}
 	tq := time.Now()
 	if wantModel {
-		m.sol.SetTimeout(m.cfg.TimeoutMs)
+		m.sol.SetTimeout(m.cfg.IncrTimeoutMs)
 	} else {
 		m.sol.SetTimeout(m.cfg.FeasTimeoutMs)
 	}
 	r, model, errs := m.sol.Check(m.em.take(), []string{n}, wantModel, vars)
+	if r == RUnknown && errs == "" && !m.sol.dead && wantModel {
+		r, model, errs = m.sol.OneShot([]string{n}, wantModel, vars, m.cfg.TimeoutMs)
+	}
 	if slowLog != nil && time.Since(tq) > 500*time.Millisecond {
 		slowLog(fmt.Sprintf("%.1fs %s at %s choices=%v query=%s", time.Since(tq).Seconds(), r, m.position(), m.choices, extra.String()))
 	}
@@ -449,6 +455,9 @@ func (m *Machine) chooseIntX(t *Term, lo, hi int, maxVals int, soft bool) (int, 
 	if m.dpos < len(m.decisions) {
 		d := m.decisions[m.dpos]
 		m.dpos++
+		if d.Val == declined {
+			return 0, false
+		}
 		m.assertPC(eqc(d.Val))
 		m.ctx.subst[t] = m.ctx.IntI(t.Sort, int64(d.Val))
 		return d.Val, true
@@ -469,6 +478,7 @@ func (m *Machine) chooseIntX(t *Term, lo, hi int, maxVals int, soft bool) (int, 
 			r, model := m.checkValue(t, block)
 			if r != RSat {
 				if r == RUnknown && soft {
+					m.recordDecision(declined, true)
 					return 0, false
 				}
 				if r == RUnknown {
@@ -491,6 +501,7 @@ func (m *Machine) chooseIntX(t *Term, lo, hi int, maxVals int, soft bool) (int, 
 		}
 		if len(feas) > maxVals {
 			if soft {
+				m.recordDecision(declined, true)
 				return 0, false
 			}
 			panic(pathEnd{"unwind", "more than 64 feasible values for a symbolic size/index at " + m.position()})
@@ -514,6 +525,9 @@ func (m *Machine) chooseIntX(t *Term, lo, hi int, maxVals int, soft bool) (int, 
 // narrow interval, fork on the term's value instead of on the boolean: later uses of the same
 // term (loop bounds, offsets) then fold to constants.
 func (m *Machine) concretizeCmp(c *Term) (*Term, bool) {
+	if !m.cfg.Concretize {
+		return nil, false
+	}
 	cmp := c
 	if cmp.Op == OBNot {
 		cmp = cmp.Args[0]
@@ -753,3 +767,7 @@ func (m *Machine) doAssume(c *Term) {
 }
 
 var slowLog func(string)
+
+// declined marks a decision slot where a soft concretisation attempt gave up (so that
+// replays of this prefix take the same route).
+const declined = -1 << 40
